@@ -13,7 +13,7 @@ CHECKS['C06'] = {'engine': 'BFS', 'design_ref': 'DESIGN.md 6 C06',
     'text': 'All histories of sides assignments up to the depth bound (a fixpoint is reached) from every basis PSD vector, both data types, every NFFT in the bound; every distinct state is compared with a reference conversion matrix built from the frequency axes.',
     'note': _EX_NOTE}
 CHECKS['C07'] = {'engine': 'BFS', 'design_ref': 'DESIGN.md 6 C07',
-    'technique': 'explicit-state BFS over setter/call/read histories of real estimator objects (full vars() state hashing; depth 3 from fresh and from computed objects in quick, depth 5 in thorough) with a fresh-object differential oracle and a reference model of the attribute store in every distinct state',
+    'technique': 'explicit-state BFS over setter/call/read histories of real estimator objects (full vars() state hashing; depth 3 from fresh and from computed objects in quick, depth 5 (four classes) and 4 (eight classes) in thorough) with a fresh-object differential oracle and a reference model of the attribute store in every distinct state',
     'text': 'All histories up to the depth bound over a 22-30 event menu (setters incl. numpy-integer orders and near-equal sampling rates, data records, in-place refilled caller buffer, call, read) per class and data type are executed on real objects; every distinct concrete state is probed on a disposable rebuild against a freshly constructed object with the same final attribute values.',
     'note': _EX_NOTE + '; the fresh-object estimate is the oracle (its numerical correctness is decided by the other properties)'}
 CHECKS['C09'] = {'engine': 'EX', 'design_ref': 'DESIGN.md 6 C09',
